@@ -85,10 +85,19 @@ def run(ctx):
     ad = ctx.fn(IO + ":add_dict_to_hdf5_file")
     stores = [(f, n) for f in prog.functions_in(IO) for n in walk_no_nested(f.node) if isinstance(n, ast.Subscript) and isinstance(n.ctx, ast.Store) and isinstance(n.value, ast.Name) and n.value.id in ("hdf5_file", "f", "h5file")]
     ctx.ob("R-WRITERS", "C19.3", ad, "the only store into the HDF5 file object is in add_dict_to_hdf5_file", len(stores) == 1 and stores[0][0] is ad, f"{[(f.short, src(n)) for f, n in stores]}")
-    leaf = find_stmt("hdf5_file[path + $$k] = encode_for_hdf5($$v)", ad.node)
-    rec = find_expr("add_dict_to_hdf5_file(hdf5_file, path + $$k + '/', $$v)", ad.node)
-    loop = find_stmt("for $$k, $$v in d.items():\n    if isinstance($$v, dict):\n        add_dict_to_hdf5_file(hdf5_file, path + $$k + '/', $$v)\n    else:\n        hdf5_file[path + $$k] = encode_for_hdf5($$v)", ad.node)
-    ctx.ob("R-WRITERS", "C19.3", ad, "every leaf value passes through encode_for_hdf5 and nested dictionaries recurse with the extended path", len(leaf) == 1 and len(rec) == 1 and len(loop) == 1, "")
+    # the group a nested dictionary is written under is the *current* group + key + '/': the prefix used for the leaves
+    # ($$P) must be the prefix extended on descent, whether the walk recurses or keeps an explicit stack
+    leaf = find_stmt("hdf5_file[$$P + $$k] = encode_for_hdf5($$v)", ad.node)
+    rec, loop = [], []
+    if len(leaf) == 1:
+        bP = {"P": leaf[0][1]["P"]}
+        rec = find_expr("add_dict_to_hdf5_file(hdf5_file, $$P + $$k + '/', $$v)", ad.node, bP) + find_expr("$$S.append(($$P + $$k + '/', $$v))", ad.node, bP)
+        descents = [c_ for c_ in walk_no_nested(ad.node) if isinstance(c_, ast.Call) and ((call_name(c_) or "") == "add_dict_to_hdf5_file" or (isinstance(c_.func, ast.Attribute) and c_.func.attr in ("append", "extend", "insert", "appendleft") and c_.args and isinstance(c_.args[0], ast.Tuple)))]
+        loop = [n_ for n_ in walk_no_nested(ad.node) if isinstance(n_, ast.If) and match_expr("isinstance($$v, dict)", n_.test) is not None]
+        okh5 = len(rec) == 1 and len(descents) == 1 and len(loop) == 1
+    else:
+        okh5 = False
+    ctx.ob("R-WRITERS", "C19.3", ad, "every leaf value passes through encode_for_hdf5 and nested dictionaries recurse with the extended path", okh5, "")
     eh = ctx.fn(IO + ":encode_for_hdf5")
     eha = FA(eh)
     none_branch = find_stmt("if value is None:\n    $$o = '__none__'\nelse:\n    $$o = value", eh.node)
